@@ -177,6 +177,24 @@ def run(ctx):
               'outcome Derivative %s 1 2 1 0 1 1 100' % m1, True, method_after=m1)
         check('valid after assignment of method', reconfigured(dict(n=1, method='central'), [('method', m1)], 1.0),
               'outcome Derivative %s 1 2 0 0 1 1 100' % m1, False, method_after=m1)
+    # too few steps reached by raising the order of an object that was valid (and used) with the steps it has
+    for cls in ('Derivative', 'Gradient', 'Jacobian', 'Hessdiag'):
+        for (o0, o1) in ((2, 4), (2, 6), (4, 8)):
+            for uf in (True, False):
+                def thunk(cls=cls, o0=o0, o1=o1, uf=uf):
+                    gen = MinStepGenerator(base_step=1e-2, num_steps=o0 // 2, check_num_steps=False)
+                    fun = np.exp if cls == 'Derivative' else (lambda t: np.sum(np.exp(t)))
+                    d = getattr(nd, cls)(fun, step=gen, method='central', order=o0)
+                    xx = 1.0 if cls == 'Derivative' else np.array([1.0, 0.5])
+                    if uf:
+                        d(xx)
+                    d.order = o1
+                    return d(xx)
+                n_ = 2 if cls == 'Hessdiag' else 1
+                dim_ = 1 if cls == 'Derivative' else 2
+                check('too few steps by assignment of order', thunk,
+                      'outcome %s central %d %d 0 0 %d %d %d' % (cls, n_, o1, dim_, dim_, o0 // 2), True, cls=cls, order_before=o0,
+                      order_after=o1, used_before=uf)
     # fewer steps than the rule needs
     for _ in range(ctx.budget(25, 200)):
         m = rng.choice(['central', 'forward', 'backward', 'complex'])
